@@ -78,6 +78,13 @@ def gen_cases(rng, tier):
                     c.append("")
                 c[10] = str(linger)
                 cases.append(c)
+    # the To of the answer is echoed in the ACK as it came: tags with escapes or odd token characters, a To URI with port, parameters
+    # and headers, a token display name, further To parameters
+    for rel in (0, 1):
+        for to in ("To: Bob <sip:bob@example.com:5070;transport=udp;user=phone>\r\n", "To: <sip:bob@example.com>\r\n", "To: \"B. Ob\" <sip:bob@example.com;maddr=192.0.2.7;ttl=3?x=y>;x=1\r\n",
+                   "To: sip:bob@example.com\r\n"):
+            for tag in ("ab%41c", "a.b-c_d~e", "1928301774", "-"):
+                cases.append(_case("to%d" % n, rel, [(700, 486, tag)], to)); n += 1
     nrand = 60 if tier == "quick" else 2000
     for i in range(nrand):
         rel = rng.choice([0, 1])
